@@ -1,6 +1,7 @@
 import StepModel.P21SafeLemmas
 import StepModel.P21SafeLoopLemmas
 import StepModel.P21SafeTermination
+import StepModel.P21SafeSteps
 import StepModel.Generated.C05Buffers
 /-! # C05 — reading and writing Part 21 is memory-safe and terminates (the part Lean can carry)
 
@@ -290,10 +291,11 @@ theorem IS.meas_le (s : IS) : s.meas ≤ s.rest.length + 1 := by
   unfold IS.meas; split <;> omega
 
 /-- `STEPfile::FindHeaderSection`'s search loop, with the regenerated `getline` count and give-up test: started with
-`fuel = |remaining bytes| + 2` it never runs out of fuel, and it makes at most `|remaining bytes| + 1` iterations. -/
+`fuel = |remaining bytes| + 2` it never runs out of fuel, and iterations + bytes stored by `getline` are at most
+`2·(|remaining bytes| + 1)`. -/
 theorem C05_terminates_findHeaderSection (s : IS) (buf : List Byte) (steps : Nat) :
     ∃ r, headerLoop C05.findHeaderGetlineN C05.findHeaderExit (s.rest.length + 2) s buf steps = .ok r
-      ∧ r.steps ≤ steps + (s.rest.length + 1) := by
+      ∧ r.steps ≤ steps + 2 * (s.rest.length + 1) := by
   have hx : C05.findHeaderExit = .notGood := by decide
   rw [hx]
   have hm := IS.meas_le s
@@ -314,17 +316,17 @@ theorem C05_findHeaderSection_hang_witness_input :
   | zero => rfl
   | succ f =>
     have h1 : headerLoop 4 .eofOnly (f + 1) (IS.ofBytes [120, 120, 120, 120, 120]) [] 0
-        = headerLoop 4 .eofOnly f ⟨[120, 120, 120], [120, 120], false, true, true⟩ [120, 120, 120] 1 := by
+        = headerLoop 4 .eofOnly f ⟨[120, 120, 120], [120, 120], false, true, true⟩ [120, 120, 120] 4 := by
       rfl
     rw [h1]
     cases f with
     | zero => rfl
     | succ g =>
-      have h2 : headerLoop 4 .eofOnly (g + 1) ⟨[120, 120, 120], [120, 120], false, true, true⟩ [120, 120, 120] 1
-          = headerLoop 4 .eofOnly g ⟨[120, 120, 120], [120, 120], false, true, true⟩ [] 2 := by
+      have h2 : headerLoop 4 .eofOnly (g + 1) ⟨[120, 120, 120], [120, 120], false, true, true⟩ [120, 120, 120] 4
+          = headerLoop 4 .eofOnly g ⟨[120, 120, 120], [120, 120], false, true, true⟩ [] 5 := by
         rfl
       rw [h2]
-      exact headerLoop_eofOnly_spins 4 g _ 2 rfl rfl
+      exact headerLoop_eofOnly_spins 4 g _ 5 rfl rfl
 
 /-- the inner loop of the `);` recovery scan at the end of `SDAI_Application_instance::STEPread`
 (`while( in.good() && c != ')' ) { in.get( c ); … }`): fuel `|remaining| + 2` suffices, iterations are linear,
@@ -429,6 +431,37 @@ theorem C05_getLiteralStr_quadratic_witness (n : Nat) (acc : List Byte) (esc : B
 
 example (n : Nat) : litLoopCost .suffixOnly (List.replicate n chQuote) [chQuote] true ≤ 4 * n + 1 := by
   simpa using litLoopCost_suffixOnly (List.replicate n chQuote) [chQuote] true
+
+/-! ## total step counts, all nesting levels: at most `4·(|remaining bytes| + 1) + readCommentIters + 1`
+
+`steps` counts every iteration of every loop level (the scan loop itself, the comment loop, the nested `SkipInstance`
+of an overlong comment, `ReadTokenSeparator`'s loop) plus the bytes of every string literal read (`GetLiteralStr`'s loop,
+whose per-iteration cost is bounded by `C05_getLiteralStr_linear`).  `c₁ = 4`, `c₂ = readCommentIters + 5`. -/
+
+theorem C05_steps_skipInstance (s : IS) :
+    ∃ r, skipInstance C05.skipInstanceSkipsComments C05.readCommentIters (s.rest.length + 2) s = .ok r ∧
+      r.steps ≤ 4 * (s.rest.length + 1) + C05.readCommentIters + 1 := by
+  have hm := IS.m_le s
+  obtain ⟨r, h1, _, h3⟩ := scanUntil_pot C05.readCommentIters chSemi false C05.skipInstanceSkipsComments C05.readCommentIters
+    (Nat.le_refl _) (s.rest.length + 2) s 0 0 0 (by omega)
+  have := pot_le (R := C05.readCommentIters) s
+  exact ⟨r, h1, by omega⟩
+
+theorem C05_steps_findStartOfInstance (s : IS) :
+    ∃ r, findStartOfInstance (s.rest.length + 2) s = .ok r ∧ r.steps ≤ 4 * (s.rest.length + 1) + 1 := by
+  have hm := IS.m_le s
+  obtain ⟨r, h1, _, h3⟩ := scanUntil_pot 0 chHash true false 0 (Nat.le_refl _) (s.rest.length + 2) s 0 0 0 (by omega)
+  have := pot_le (R := 0) s
+  exact ⟨r, h1, by omega⟩
+
+theorem C05_steps_readTokenSeparator (s : IS) :
+    ∃ r, readTokenSeparator C05.skipInstanceSkipsComments C05.readCommentIters (s.rest.length + 2) s = .ok r ∧
+      r.steps ≤ 4 * (s.rest.length + 1) + C05.readCommentIters + 1 := by
+  have hm := IS.m_le s
+  obtain ⟨r, h1, _, h3⟩ := readTokenSeparator_pot C05.readCommentIters C05.skipInstanceSkipsComments C05.readCommentIters
+    (Nat.le_refl _) (s.rest.length + 2) s (by omega)
+  have := pot_le (R := C05.readCommentIters) s
+  exact ⟨r, h1, by omega⟩
 
 /-- regenerated facts the file-level budget relies on (not modelled proofs): the comment limit and the error cut-off
 are finite constants of the size the constant `c₂` of the linear bound absorbs, and `PushPastImbedAggr` does not
